@@ -1,6 +1,13 @@
 #!/bin/sh
-# Build Coq targets of one property under the tree-wide lock:  driver/coqmake.sh C08 C08/Props.vo [more targets]
+# Build Coq targets of one property under the directory locks:  driver/coqmake.sh C08 C08/Props.vo [more targets]
 # (extra source directories a property depends on:  COQ_DIRS="C08 C02" driver/coqmake.sh C08 ...)
+# Locks .coq.lock.<dir> for Common and every directory involved, in sorted order (same protocol as driver/lib.py).
 V="$(cd "$(dirname "$0")/.." && pwd)"
 pid="$1"; shift
-exec flock "$V/.coq.lock" sh -c 'cd "$0/coq" && sh mk_coqproject.sh ${COQ_DIRS:-$1} && shift && timeout 1500 make -f Makefile.'"$pid"' -j16 "$@"' "$V" "$pid" "$@"
+dirs="${COQ_DIRS:-$pid}"
+locks=$(printf '%s\n' Common $dirs | sort -u)
+cmd='cd "'"$V"'/coq" && sh mk_coqproject.sh '"$dirs"' && timeout 1500 make -f Makefile.'"$pid"' -j16 "$@"'
+for l in $(printf '%s\n' $locks | sort -r); do
+  cmd="flock '$V/.coq.lock.$l' sh -c '$(printf '%s' "$cmd" | sed "s/'/'\\\\''/g")' sh \"\$@\""
+done
+exec sh -c "$cmd" sh "$@"
